@@ -40,6 +40,31 @@ UNPUT_THEOREMS = ['FlexVerif.C08Unput.' + t for t in ('shiftUp_get', 'copy_loop'
                                                       'unput_overflow', 'unput_spec')]
 
 
+YYLESS_THEOREMS = ['FlexVerif.C08YYLess.' + t for t in ('ln_loop', 'less_action_spec', 'less_section3_spec', 'both_definitions_agree')]
+
+
+def regen_yyless():
+    """translate the two definitions of the yyless(n) macro (scanner generated now, %option yylineno) into lean/FlexVerif/Gen/YYLess.lean"""
+    import os, fcntl
+    from . import flexrun, gen_yyless, common
+    flex, src = flexrun.build_flex()
+    try:
+        body, info = gen_yyless.generate(flex, flexrun.scratch_root())
+    except gen_yyless.TranslateError as e:
+        return None, str(e)
+    path = os.path.join(common.LEAN_DIR, 'FlexVerif', 'Gen', 'YYLess.lean')
+    lock = open(os.path.join(common.LEAN_DIR, '.build.lock'), 'w')
+    fcntl.flock(lock, fcntl.LOCK_EX)
+    try:
+        old = open(path).read() if os.path.exists(path) else ''
+        if old != body:
+            open(path, 'w').write(body)
+    finally:
+        fcntl.flock(lock, fcntl.LOCK_UN)
+        lock.close()
+    return info, None
+
+
 def regen_unput():
     """translate yyunput_r() of a scanner flex generates now into lean/FlexVerif/Gen/Unput.lean"""
     import os, fcntl
@@ -66,9 +91,12 @@ def run(ctx):
     info, err = regen_unput()
     if err:
         ctx.violation('translator of yyunput_r() gave up: ' + err, {'error': err}, no_input=True)
+    info, err = regen_yyless()
+    if err:
+        ctx.violation('translator of the yyless() macros gave up: ' + err, {'error': err}, no_input=True)
     q1, q2, q3 = {'quick': (64, 48, 32), 'thorough': (600, 400, 200)}[ctx.tier]
     plan = [('ops', q1, 8), ('unput', q2, 6), ('arraymore', q3, 6), ('eof', q3, 6)]
-    return rtprop.run(ctx, THEOREMS + UNPUT_THEOREMS, plan, 'proof',
-                      'yymore/yyless/yyunput/yyinput scripts per action execution, %array and %pointer, reentrant and not, small buffers; yyunput_r() itself is translated from a scanner flex generates in this run (Gen/Unput.lean: the character buffer as an array, every char* an offset, the shift loop a while loop) and proved for every buffer size, fill level, scan position and character: the push-back overflow error exactly when there is no room even after shifting, otherwise the unread text is the character followed by the unread text before, the end-of-buffer marks follow the data, and after a shift the buffer\'s own character count equals the scanner\'s (C08Unput.unput_spec)' + '. Kernel-checked theorems about the abstract scanner (listed under obligations) + differential '
+    return rtprop.run(ctx, THEOREMS + UNPUT_THEOREMS + YYLESS_THEOREMS, plan, 'proof',
+                      'yymore/yyless/yyunput/yyinput scripts per action execution, %array and %pointer, reentrant and not, small buffers; yyunput_r() itself is translated from a scanner flex generates in this run (Gen/Unput.lean: the character buffer as an array, every char* an offset, the shift loop a while loop) and proved for every buffer size, fill level, scan position and character: the push-back overflow error exactly when there is no room even after shifting, otherwise the unread text is the character followed by the unread text before, the end-of-buffer marks follow the data, and after a shift the buffer\'s own character count equals the scanner\'s (C08Unput.unput_spec); the two definitions of the yyless(n) macro (the one actions use and the one for section-3 code, with YY_LESS_LINENO as generated for %option yylineno) are translated the same way and proved, for every token, n and buffer content, to leave the same state: first n characters kept, scan position after them, hold character saved, the old end restored, yylineno lowered by the newlines given back (C08YYLess.less_action_spec, less_section3_spec, both_definitions_agree)' + '. Kernel-checked theorems about the abstract scanner (listed under obligations) + differential '
                       'correspondence of the real generated scanner (ASan/UBSan build) with that model on generated cases.',
                       post=known_f08)
